@@ -880,6 +880,7 @@ def apply_spans_index_of_min_indexed(spans, src_indices, src_values, dest_array=
                         minind = j
                         minstart = curstart
                         minend = curend
+                        minlen = curlen
                         found = True
                         break
                     elif src_values[curstart+k] > src_values[minstart+k]:
@@ -889,6 +890,7 @@ def apply_spans_index_of_min_indexed(spans, src_indices, src_values, dest_array=
                     minind = j
                     minstart = curstart
                     minend = curend
+                    minlen = curlen
 
             dest_array[i] = minind
 
